@@ -9,10 +9,20 @@ SPEC = {
                  'C21_refuted_shash', 'C21_shash_partial',
                  'C21_oracle_accepts_invariant', 'C21_oracle_accepts_short', 'C21_oracle_short_meaning',
                  'C21_oracle_accepts_block',
-                 'C21_guard_satisfiable', 'C21_peracc_hypothesis_needed'],
+                 'C21_guard_satisfiable', 'C21_peracc_hypothesis_needed',
+                 # any QueueCache (contract), SimpleQueue as an instance, skiplist.Queue as a non-instance
+                 'C21_consistent_any_contract_queue', 'C21_contract_arrival_order', 'C21_simple_queue_contract',
+                 'C21_consistent_via_contract', 'C21_skiplist_queue_breaks_contract', 'C21_skiplist_push_evicts',
+                 # txCache over common/skiplist.Queue, precisely
+                 'C21_skipqueue_refuted', 'C21_skipqueue_partial', 'C21_skipqueue_first_eviction_breaks',
+                 'C21_skipqueue_queue_side', 'C21_skipqueue_block_txs_gone',
+                 'C21_skipqueue_guard_satisfiable', 'C21_skipqueue_witness',
+                 # delayed-transaction cache
+                 'C21_delay_refines_flat', 'C21_delay_observables', 'C21_delay_release_exact',
+                 'C21_delay_release_order', 'C21_delay_not_due_stays', 'C21_delay_example'],
     'allowed_axioms': [],
     'shard': 24,
-    'check_preamble': 'From C33 Require Import C21.Model.\nOpen Scope Z_scope.\n',
+    'check_preamble': 'From C33 Require Import C21.Model C21.DelayModel.\nOpen Scope Z_scope.\n',
     'case_type': 'option case',
     'rule': 'event histories (push / remove-batch / expiry sweep / block added / block rolled back; 1-40 events quick, '
             '3-80 thorough) over 4-12 transactions of 3 senders (plain and 2-3 member groups; expiry none / by height / by '
@@ -24,7 +34,15 @@ SPEC = {
             '"collide-witness" (push A, push B, remove A: the remaining refutation witness), "collide-repaired" (push A, '
             'push B, remove B and variants: the witness repaired by a576c70, no failure allowed), '
             '"concurrent-smoke" (8 goroutines on one pool, only the final state is judged by the '
-            'oracle: a test, not part of the proof). After every event the full observable state is recorded (Walk order, '
+            'oracle: a test, not part of the proof), "delay" / "delay-tiny" / "delay-fixed" (pool histories over plain '
+            'transactions mixed with delayed-transaction events on the real Mempool: EventAddDelayTx handler with ends '
+            'around the current block time / height, in the past, without transaction; added blocks carrying 0-3 '
+            'CommitDelayTx actions with relative time / height >0, =0, <0; delay capacity PoolCacheSize/2 = 0-5; heights '
+            'that skip and repeat, block times that go back; fixed scenarios: release by height / by time, one key that is '
+            'in the time window and is the height, duplicates, overflow, an end in the past that blocks a capacity-1 cache '
+            'for ever, a skipped height; after every event the pool observables plus contains() of every known hash, '
+            'len(hashCache), the reply class and the list queued for pushDelayTxRoutine are recorded and judged by the '
+            'two-map model (exact released order) and by the flat specification). After every event the full observable state is recorded (Walk order, '
             'Size, TxNumOfAccount and GetAccTxs per sender, GetLatestTx, short- and full-hash lookup of every known hash, '
             'TotalFee, GetTotalCacheBytes, error class). non-trivial = the pool is non-empty after some event; '
             'distinct = distinct Gallina case terms',
@@ -36,7 +54,19 @@ SPEC = {
         'hook file /repo/system/mempool/access_verif.go (build tag verif): accessors for TotalFee, getTxListByHash, '
         'removeExpired, eventAddBlock, setHeader+delBlock, Walk, Exist; binds a queue client without starting goroutines; '
         'sets the package variable mempoolExpiredInterval',
-        'SimpleQueue is the queue implementation (the default "timeline" mempool); the score/price plugin queues are not modelled',
+        'SimpleQueue is the queue implementation chain33 ships (the default "timeline" mempool). The generic theorems '
+        '(QueueModel/QueueProofs) are about txCache over a record of queue operations; their tie to cache.go is the '
+        'SimpleQueue instance (of_state_run: the generic model over simple_ops IS Model.v, which the harness checks). '
+        'txCache over common/skiplist.Queue (SkipQModel: cache.go as in Model.v + the C24 model of the queue + an arbitrary '
+        'score function) is a model-only result - no chain33 binary plugs that queue into txCache, no harness stream runs '
+        'it; the price/score queues of the plugin repository are not part of /repo and are not modelled',
+        'delayed transactions: a transaction is its hash id; EndDelayTime is one integer meaning block time or height as in '
+        'the code; the scan t = lastBlockTime+1..currBlockTime of delExpiredTxs is modelled as the ascending keys inside the '
+        'window; parsing of CommitDelayTx actions out of block transactions and the account blacklist check are executed '
+        'by the Go side only (no blocked accounts in the harness); pushDelayTxRoutine (goroutine calling SendTx, retry on '
+        'ErrMemFull) is not modelled: what the release queues for it is an observable',
+        'hook file /repo/system/mempool/access21b_verif.go (build tag verif): runs the EventAddDelayTx handler, '
+        'delayTxCache.contains, len(hashCache), non-blocking drain of delayTxListChan',
     ],
     'assumptions': [
         'MaxTxNumPerAccount >= 1 (hypothesis 1 <= c_peracc of every theorem; NewMempool replaces 0 by 100; a negative value '
@@ -52,6 +82,15 @@ SPEC = {
         'delBlock: the model receives the pool-level transactions of the block that pass Transaction.Check (group merging, '
         'miner skip and Check are executed by the Go side only)',
         'eventDelBlock obtains the new tip from the blockchain module; the harness passes it in (VerifDelBlock = setHeader + delBlock)',
+        'queue contract (C21_consistent_any_contract_queue): fresh queue empty; Walk without duplicate hash; GetItem/Size/'
+        'GetCacheBytes agree with the Walk; Size <= capacity; a Push answering an error changes nothing; a successful Push '
+        'adds exactly the pushed item and removes nothing; Remove removes exactly the named item; Walk order free. '
+        'common/skiplist.Queue does not meet it (its Push evicts: C21_skiplist_queue_breaks_contract); for txCache over that '
+        'queue the invariant holds exactly as long as no Push evicts (C21_skipqueue_partial / _first_eviction_breaks; '
+        'hypothesis hash_table_ok: the transaction a hash names has that hash)',
+        'delay cache: the header is set when the history starts (with a nil header and a non-empty cache the first '
+        'delExpiredTxs would scan every second since 1970); an entry whose EndDelayTime can never come due is accepted and '
+        'never leaves (C21_delay_not_due_stays) - the flat specification allows that, see the report / work/C21/fix1.diff',
         'concurrency: every Mempool method takes proxyMtx, the theorems are about sequential histories; the concurrent run is a smoke test',
     ],
     'manifest': {
@@ -59,9 +98,17 @@ SPEC = {
                       'correspondence of all observables); short-hash clause partial: after chain33 a576c70 an index entry '
                       'provably stays with its owner while the owner is pooled and a transaction pushed without a pooled '
                       'collision is indexed (all histories), but the full clause is still refuted (a transaction pushed while '
-                      'a colliding one is pooled is never indexed: open finding, narrowed); concurrency partial (smoke test only)',
+                      'a colliding one is pooled is never indexed: open finding, narrowed); concurrency partial (smoke test only). '
+                      'Queue interface: the invariant is proved for EVERY QueueCache meeting a stated contract (SimpleQueue '
+                      'meets it; the direct theorem is re-derived as a corollary); documented contract mismatch: /repo\'s '
+                      'common/skiplist.Queue evicts inside Push and meets the contract under no representation invariant - '
+                      'txCache over it keeps the invariant exactly until the first eviction (model-only, proved; not a '
+                      'finding: chain33 plugs only SimpleQueue into txCache). Delayed-transaction cache: full for '
+                      'sequential histories (two-map bookkeeping refines a flat pending list for all histories; release = '
+                      'exactly the due entries, once, in the stated order; tied to the Go code by per-event correspondence)',
         'level_note': 'model = hand-written Gallina transcription of listmap/simplequeue/accountindex/lasttx/shorthashtx/cache/'
-                      'base(eventAddBlock, delBlock, removeExpired); short hash abstract; hook file exports internals',
+                      'base(eventAddBlock, delBlock, removeExpired) and of delayTxCache + its two call sites; generic txCache '
+                      'over a record of queue operations; short hash abstract; hook files export internals',
         'technique': 'Coq proof (invariant by induction over event histories) + in-kernel correspondence check',
     },
     'harness_timeout': {'quick': 300, 'thorough': 3000},
